@@ -144,7 +144,9 @@ Proof.
   assert (Hlt : length payload < body_fuel b0).
   { destruct (VB_rest _ _ _ HV) as [q [Hq Hl]]. cbn [List.app] in Hq. subst q. exact Hl. }
   rewrite (spec_one_ok a r raw _ payload [] Hnr Hview).
-  cbv zeta. unfold handle_one_request. rewrite Hrr.
+  cbv zeta. unfold handle_one_request.
+  match goal with |- context [read_request ?f ?n ?x ?y] =>
+    replace (read_request f n x y) with (RParsed buf r, unread ++ later) by (symmetry; exact Hrr) end.
   assert (Hte : te_present (q_hdrs r) && negb (te_final_chunked (q_hdrs r)) = false).
   { destruct (te_present (q_hdrs r) && negb (te_final_chunked (q_hdrs r))) eqn:E; [|reflexivity].
     exfalso. apply Hnr. rewrite <- Hfr. unfold server_framing'. rewrite E. reflexivity. }
